@@ -3,6 +3,7 @@
 package c17
 
 import (
+	"io"
 	"fmt"
 
 	"go.uber.org/zap"
@@ -64,8 +65,17 @@ func render(ops []op) []string {
 // runProgram executes ops against a real zapio.Writer; it returns a violation message or "".
 func runProgram(ops []op, level zapcore.Level, toggles bool) string {
 	al := zap.NewAtomicLevelAt(zapcore.DebugLevel)
-	core, logs := observer.New(al)
+	// the core enables every level (also custom ones below debug or above fatal) unless the
+	// program has switched it off
+	core, logs := observer.New(zap.LevelEnablerFunc(func(l zapcore.Level) bool { return al.Level() <= zapcore.DebugLevel }))
 	w := &zapio.Writer{Log: zap.New(core), Level: level}
+	// other users of the shared buffer pool: a second writer with a pending partial line and loggers
+	// over encoder-backed cores
+	other := &zapio.Writer{Log: zap.NewNop(), Level: zapcore.InfoLevel}
+	poolUsers := []*zap.Logger{
+		zap.New(zapcore.NewCore(zapcore.NewJSONEncoder(zap.NewProductionEncoderConfig()), zapcore.AddSync(io.Discard), zapcore.DebugLevel)),
+		zap.New(zapcore.NewCore(zapcore.NewConsoleEncoder(zap.NewDevelopmentEncoderConfig()), zapcore.AddSync(io.Discard), zapcore.DebugLevel)),
+	}
 	m := &model{}
 	enabled := true
 	sawDisabled := false
@@ -110,6 +120,12 @@ func runProgram(ops []op, level zapcore.Level, toggles bool) string {
 				m.sync()
 			}
 			seg++
+		case 'L':
+			_, _ = other.Write([]byte("pending partial of another writer"))
+			for _, pl := range poolUsers {
+				pl.Info("pool user", zap.String("k", "0123456789abcdef0123456789abcdef"), zap.Reflect("r", []int{1, 2, 3}), zap.Int("n", i))
+			}
+			_ = other.Sync()
 		case 'D':
 			al.SetLevel(zapcore.FatalLevel + 1)
 			enabled, sawDisabled = false, true
@@ -323,6 +339,9 @@ func Run(r *ev.Run) {
 			if g.P(1, 6) {
 				ops = append(ops, op{Kind: 'S'})
 			}
+			if g.P(1, 8) {
+				ops = append(ops, op{Kind: 'L'}) // other users of zap's shared buffer pool in between
+			}
 			if toggles && g.P(1, 5) {
 				ops = append(ops, op{Kind: rng.Pick(g, []byte{'D', 'E'})})
 			}
@@ -338,7 +357,7 @@ func Run(r *ev.Run) {
 		if i%50 == 0 {
 			feature(r, ops)
 		}
-		lvl := rng.Pick(g, []zapcore.Level{zapcore.DebugLevel, zapcore.InfoLevel, zapcore.ErrorLevel})
+		lvl := rng.Pick(g, []zapcore.Level{zapcore.DebugLevel, zapcore.InfoLevel, zapcore.ErrorLevel, zapcore.Level(-2), zapcore.Level(-128), zapcore.Level(7), zapcore.WarnLevel})
 		if msg := runProgram(ops, lvl, toggles); msg != "" {
 			r.Violate(ev.Violation{Case: id, Class: "lines-random", Msg: msg, Witness: render(ops)})
 		}
